@@ -505,6 +505,30 @@ def handleCustomBroadcasts (data : Bytes) (sender : Option Id) : M Unit :=
   if !data.isEmpty && data.length < Gen.customMinBytes then throwE .malformed
   else customLoop E sender (data.length + 1) data
 
+/-- the reply table of `handle_data` (reached only while connected, from an active sender) -/
+def reactToMessage (h : Header) : M Unit := do
+  let s ← getS
+  match h.msg with
+  | .ping n => sendMessage E h.src (.ack n)
+  | .ack n => modS fun s => { s with probe := s.probe.receiveAck h.src n }
+  | .pingReq target n =>
+    if target == s.id then throwE .indirectForOurselves
+    else sendMessage E target (.indirectPing h.src n)
+  | .indirectPing origin n =>
+    if origin == s.id then throwE .indirectForOurselves
+    else sendMessage E h.src (.indirectAck origin n)
+  | .indirectAck target n =>
+    if target == s.id then throwE .indirectForOurselves
+    else sendMessage E target (.forwardedAck h.src n)
+  | .forwardedAck origin n =>
+    if origin == s.id then throwE .indirectForOurselves
+    else modS fun s => { s with probe := s.probe.receiveIndirectAck h.src n }
+  | .announce => sendMessage E h.src .feed
+  | .turnUndead => handleSelfUpdate E 0 .down
+  | .gossip => pure ()
+  | .feed => pure ()
+  | .broadcast => pure ()
+
 /-- `Foca::handle_data` -/
 def handleData (data : Bytes) : M Unit := do
   let s ← getS
@@ -540,26 +564,7 @@ def handleData (data : Bytes) : M Unit := do
           | some e => throwE e
           | none => pure ()
         else
-          match h.msg with
-          | .ping n => sendMessage E h.src (.ack n)
-          | .ack n => modS fun s => { s with probe := s.probe.receiveAck h.src n }
-          | .pingReq target n =>
-            if target == s.id then throwE .indirectForOurselves
-            else sendMessage E target (.indirectPing h.src n)
-          | .indirectPing origin n =>
-            if origin == s.id then throwE .indirectForOurselves
-            else sendMessage E h.src (.indirectAck origin n)
-          | .indirectAck target n =>
-            if target == s.id then throwE .indirectForOurselves
-            else sendMessage E target (.forwardedAck h.src n)
-          | .forwardedAck origin n =>
-            if origin == s.id then throwE .indirectForOurselves
-            else modS fun s => { s with probe := s.probe.receiveIndirectAck h.src n }
-          | .announce => sendMessage E h.src .feed
-          | .turnUndead => handleSelfUpdate E 0 .down
-          | .gossip => pure ()
-          | .feed => pure ()
-          | .broadcast => pure ()
+          reactToMessage E h
           match cres with
           | some e => throwE e
           | none => pure ()
